@@ -25,7 +25,7 @@ EXPLANATION = (
     "spec table itself against central differences of the math module.")
 ASSUMPTIONS = [
     "real arithmetic is mathematical (A-FLOAT: no floating point reasoning); power laws assumed on the domain (positive base or integer exponent)",
-    "flattened_sum / flattened_product: assumed contract 'value = sum / product of the values of the terms' (bounded validation in C11)",
+    "flattened_sum / flattened_product: callee contract 'value = sum / product of the values of the terms' (the loops are proved in C11 in an abstract commutative monoid)",
     "primitives.quotient: assumed contract 'value = numerator / denominator' (bounded validation in C19)",
     "Expression.__eq__ is structural equality (C01); M-IND; dispatcher contract (C04); CSE cache contract (C05)",
     "n-ary rules are proved per arity 0..3 (stated bound on the arity, arbitrary operands); larger arities are bounded only",
